@@ -1161,7 +1161,11 @@ def tier_opts(tier):
 ASSUMPTIONS = [
     "the reference model (simfw/models/forth_model.py) is written from the property text and standard Forth; "
     "points marked CALIBRATED mirror the unchanged tree (do-loop test-before-body, rshift arithmetic, state after "
-    "halt, divisor popped before division_by_zero)",
+    "halt, divisor popped before division_by_zero, a 'pause' that is the last word of its segment leaves the segment "
+    "before it suspends: the program or a called word is done when it stops there and a loop body steps its index at "
+    "the pause)",
+    "calls at pauses: the machine cannot tell a called word that has finished from one that has paused; the number of "
+    "resumes a called word needs is taken from the model",
     "programs whose model execution reaches behaviour that is not defined (shift count outside the cell width, "
     "float to integer out of range, call() at the recursion limit) are checked for self-consistency and "
     "robustness only",
